@@ -45,9 +45,12 @@ Profile(p) ==
 \* statements: q = sent as QUERY, p = prepared (PREPARE + EXECUTE); 0 / 2 = bind markers.  (Values given to a
 \* statement that is not prepared - anything that does not start with SELECT / INSERT / UPDATE / DELETE / BATCH - are
 \* not decided by the documentation: no such statement here.)
-Stmts == {"q0", "p0", "p2"}
-Prepared(s) == s \in {"p0", "p2"}
+\* b2 = built with Session.Bind: "The binding callback allows the application to define which query argument values
+\* will be marshalled as part of the query execution" - the callback answers 5, 6; Values() has nothing to show.
+Stmts == {"q0", "p0", "p2", "b2"}
+Prepared(s) == s \in {"p0", "p2", "b2"}
 InitVals(s) == IF s = "p2" THEN <<1, 2>> ELSE <<>>
+WireVals(C) == IF C.stmt = "b2" THEN <<5, 6>> ELSE C.vals
 BindVals == <<7, 8>>
 
 (* What a Query value is configured to.                                    *)
@@ -92,7 +95,7 @@ Apply(C, a) ==
 \* entry kinds: s = statement without arguments, p = statement with two arguments, b = statement with a binding
 \* callback (Batch.Bind)
 EntryVals(k) == IF k = "p" THEN <<1, 2>> ELSE IF k = "b" THEN <<5, 6>> ELSE <<>>
-BZero == [btype |-> 0, entries |-> <<>>, fill |-> 0, cons |-> 0, serial |-> 0, tson |-> FALSE, tsval |-> 0,
+BZero == [btype |-> 0, entries |-> <<>>, fill |-> 0, idem |-> FALSE, cons |-> 0, serial |-> 0, tson |-> FALSE, tsval |-> 0,
           payload |-> FALSE, trace |-> "none", obs |-> "none", rt |-> 0, ctx |-> "bg"]
 BTypes == [logged |-> 0, unlogged |-> 1, counter |-> 2]
 \* Session.NewBatch "creates a new batch operation using defaults defined in the cluster";
@@ -100,7 +103,7 @@ BTypes == [logged |-> 0, unlogged |-> 1, counter |-> 2]
 BFresh(D, t, raw) == IF raw THEN [BZero EXCEPT !.btype = t]
                      ELSE [BZero EXCEPT !.btype = t, !.cons = D.cons, !.serial = D.serial, !.tson = D.ts, !.trace = D.trace,
                                         !.obs = D.obs, !.rt = D.rt]
-BSetters == {"cons", "serial", "tsoff", "tson", "tsval", "payload", "trace", "obs", "ctxdead"}
+BSetters == {"cons", "serial", "tsoff", "tson", "tsval", "payload", "trace", "obs", "ctxdead", "idem"}
 BApply(B, a) ==
   CASE a = "cons" -> [B EXCEPT !.cons = 10]
     [] a = "serial" -> [B EXCEPT !.serial = 9]
@@ -111,8 +114,11 @@ BApply(B, a) ==
     [] a = "trace" -> [B EXCEPT !.trace = "Q"]
     [] a = "obs" -> [B EXCEPT !.obs = "Q"]
     [] a = "ctxdead" -> [B EXCEPT !.ctx = "dead"]         \* b = b.WithContext(cancelled context)
+    [] a = "idem" -> [B EXCEPT !.idem = TRUE]             \* every entry so far is marked BatchEntry.Idempotent
 BatchMax == 65535        \* BatchSizeMaximum "is the maximum number of statements a batch operation can have"
 BSize(B) == IF B.fill > 0 THEN B.fill ELSE Len(B.entries)
+\* a batch is idempotent when every entry is (entries added by Query / Bind are not until marked)
+BIdem(B) == B.idem \/ BSize(B) = 0
 
 -----------------------------------------------------------------------------
 (* Handle-level state.                                                     *)
@@ -164,7 +170,8 @@ En(L, c) ==
     [] c.op = "Fill" -> L.b.st = "live" /\ L.b.cfg.fill = 0 /\ \A i \in 1 .. Len(L.b.cfg.entries) : L.b.cfg.entries[i] = "s"
     [] c.op = "BSet" -> L.b.st = "live" /\ L.b.sets < MaxSets /\ (c.a = "tson" => L.b.cfg.tsval = 0) /\ L.b.cfg.fill = 0
     [] c.op = "ExecB" -> /\ L.b.st = "live" /\ L.b.execs < MaxExecs
-                         /\ (c.a = "err" => L.b.cfg.rt = 0 /\ L.b.cfg.ctx # "dead" /\ BSize(L.b.cfg) <= BatchMax)
+                         /\ (c.a = "err" => /\ L.b.cfg.ctx # "dead" /\ BSize(L.b.cfg) <= BatchMax
+                                            /\ (L.b.cfg.rt = 1 => BIdem(L.b.cfg) /\ L.b.att >= 0))
     [] OTHER -> FALSE
 
 -----------------------------------------------------------------------------
@@ -179,7 +186,7 @@ NoWire == [op |-> "", stmt |-> "", vals |-> <<>>, cons |-> 0, skip |-> FALSE, ps
            ts |-> "off", tracing |-> FALSE, payload |-> FALSE, btype |-> -1, n |-> 0, kinds |-> <<>>, counts |-> <<>>]
 Ts(C) == IF ~C.tson THEN "off" ELSE IF C.tsval # 0 THEN "val" ELSE "now"
 Wire(Df, C) ==
-  [NoWire EXCEPT !.op = IF Prepared(C.stmt) THEN "EXECUTE" ELSE "QUERY", !.stmt = C.stmt, !.vals = C.vals, !.cons = C.cons,
+  [NoWire EXCEPT !.op = IF Prepared(C.stmt) THEN "EXECUTE" ELSE "QUERY", !.stmt = C.stmt, !.vals = WireVals(C), !.cons = C.cons,
                  !.skip = Prepared(C.stmt) /\ Df.skipmeta /\ ~C.noskip, !.psize = C.psize, !.pstate = C.pstate,
                  !.serial = C.serial, !.ts = Ts(C), !.tracing = C.trace # "none", !.payload = C.payload]
 Small(B) == B.fill = 0
@@ -199,7 +206,9 @@ ObsCall(who, stmts, vals, rows, err, k) == [who |-> who, stmts |-> stmts, vals |
 \* the node's behaviour during one execution: ok | err (every request is answered with an ERROR) | err1 (the first one)
 AttErr(env, k, n) == IF env = "err" \/ (env = "err1" /\ k = 1) THEN "server" ELSE "none"
 
-NoRes == [ret |-> "-", reqs |-> <<>>, calls |-> <<>>, tracer |-> "none", traced |-> 0, att |-> 0, lat |-> TRUE, judge |-> "none"]
+\* first: ObservedQuery.Attempt / ObservedBatch.Attempt of the first observer call ("The first attempt is number zero");
+\* decided (>= 0) for the first execution of a value only - the calls carry the index relative to it
+NoRes == [ret |-> "-", reqs |-> <<>>, calls |-> <<>>, first |-> -1, tracer |-> "none", traced |-> 0, att |-> 0, lat |-> TRUE, judge |-> "none"]
 
 \* Query.Exec / Iter: "ObserveQuery gets called on every query to cassandra"; Query.Attempts "returns the number of
 \* times the query was executed"; Latency "the average amount of nanoseconds per attempt" (the node holds every answer
@@ -214,6 +223,7 @@ ExecRes(L, h, env) ==
           !.calls = IF C.obs = "none" THEN <<>>
                     ELSE [k \in 1 .. n |-> ObsCall(C.obs, <<C.stmt>>, <<C.vals>>, IF AttErr(env, k, n) = "none" THEN 1 ELSE 0,
                                                    AttErr(env, k, n), k - 1)],
+          !.first = IF C.obs # "none" /\ a0 = 0 THEN 0 ELSE -1,
           !.tracer = C.trace, !.traced = IF C.trace = "none" THEN 0 ELSE n,
           !.att = IF a0 < 0 THEN -1 ELSE a0 + n, !.judge = "all"]
 
@@ -231,6 +241,7 @@ ExecBRes(L, env) ==
                                                                        IF B.entries[i] = "b" THEN <<>> ELSE EntryVals(B.entries[i])]
                                                    ELSE <<>>,
                                                    0, AttErr(env, k, n), k - 1)],
+          !.first = IF B.obs # "none" /\ L.b.att = 0 THEN 0 ELSE -1,
           !.tracer = B.trace, !.traced = IF B.trace = "none" THEN 0 ELSE n,
           !.att = IF L.b.att < 0 THEN -1 ELSE L.b.att + n, !.judge = "all"]
 
@@ -251,8 +262,8 @@ Aft(L, c) ==
     [] c.op = "Release" -> SetH(L, c.h, [H(L, c.h) EXCEPT !.st = "released"])
     [] c.op = "NewBatch" -> [L EXCEPT !.b = [st |-> "live", cfg |-> BFresh(D(L), IF c.a = "raw" THEN 0 ELSE BTypes[c.a], c.a = "raw"),
                                             att |-> 0, sets |-> 0, execs |-> 0]]
-    [] c.op = "BAdd" -> [L EXCEPT !.b.cfg.entries = Append(@, c.a)]
-    [] c.op = "Fill" -> [L EXCEPT !.b.cfg.fill = IF c.a = "max" THEN BatchMax ELSE BatchMax + 1]
+    [] c.op = "BAdd" -> [L EXCEPT !.b.cfg.entries = Append(@, c.a), !.b.cfg.idem = FALSE]
+    [] c.op = "Fill" -> [L EXCEPT !.b.cfg.fill = IF c.a = "max" THEN BatchMax ELSE BatchMax + 1, !.b.cfg.idem = FALSE]
     [] c.op = "BSet" -> [L EXCEPT !.b.cfg = BApply(@, c.a), !.b.sets = @ + 1]
     [] c.op = "ExecB" -> [L EXCEPT !.b.execs = @ + 1, !.b.att = ExecBRes(L, c.a).att]
 
@@ -348,7 +359,7 @@ SettersReachWire ==
   last.call.op = "Exec" /\ last.res.reqs # <<>> =>
     LET w == last.res.reqs[1] X == H(L, last.call.h) IN
     /\ w.cons = X.cfg.cons /\ w.psize = X.cfg.psize /\ w.serial = X.cfg.serial /\ w.pstate = X.cfg.pstate
-    /\ w.vals = X.cfg.vals /\ (w.ts = "off" <=> ~X.cfg.tson) /\ (w.ts = "val" => X.cfg.tsval = 12345)
+    /\ w.vals = WireVals(X.cfg) /\ (w.ts = "off" <=> ~X.cfg.tson) /\ (w.ts = "val" => X.cfg.tsval = 12345)
     /\ (w.tracing <=> X.cfg.trace # "none") /\ (w.payload <=> X.cfg.payload)
     /\ (X.cfg.noskip => ~w.skip)
 
